@@ -3,6 +3,7 @@ CONSTANTS
   Sizes <- S5
   Cuts <- CutsBig
   PersistentReader = FALSE
+  BreakAllowed = FALSE
 VIEW View
 INVARIANTS NothingLost InOrderOnce
 PROPERTY AllDelivered
